@@ -52,8 +52,11 @@ MAX_UNROLL = 400
 MAX_DEPTH = 60
 
 
+_FRAME_IDS = __import__("itertools").count(1)
+
+
 class Frame:
-    __slots__ = ("vars", "func", "module", "cls", "is_harness", "loopno", "entry")
+    __slots__ = ("vars", "func", "module", "cls", "is_harness", "loopno", "entry", "fid", "has_closures")
 
     def __init__(self, vars, func, module, cls=None, is_harness=False):
         self.vars = vars
@@ -63,11 +66,15 @@ class Frame:
         self.is_harness = is_harness
         self.loopno = 0
         self.entry = None
+        self.fid = next(_FRAME_IDS)  # identity of this activation (kept by copy(): the same activation on a forked path)
+        self.has_closures = False  # a lambda / nested def was created in this activation (its variables outlive it)
 
     def copy(self):
         f = Frame(dict(self.vars), self.func, self.module, self.cls, self.is_harness)
         f.loopno = self.loopno
         f.entry = self.entry
+        f.fid = self.fid
+        f.has_closures = self.has_closures
         return f
 
 
@@ -104,6 +111,10 @@ class St:
         e = self.store[ref.id]
         if e.kind == "dict" and e.owner is not None:
             e.items = self.store[e.owner.id].attrs  # obj.__dict__ is a live view: reads and writes go to the object
+        elif e.__class__ is DictViewE:
+            # d.keys() / d.values() / d.items() are live views of d: recomputed from the dictionary at every access
+            d = self.get(e.dref).items
+            e.items = list(d) if e.which == "keys" else (list(d.values()) if e.which == "values" else list(d.items()))
         return e
 
     @property
@@ -473,8 +484,10 @@ class Interp:
         fr = st.frame
         if name in fr.vars:
             return fr.vars[name]
-        if fr.func is not None and fr.func.closure is not None and name in fr.func.closure:
-            return fr.func.closure[name]
+        if fr.func is not None and fr.func.closure is not None:
+            found, v = self.closure_lookup(fr.func, name, st)
+            if found:
+                return v
         if fr.is_harness and name in self.extra_globals:
             return self.thaw_global(self.extra_globals[name], st)
         mi = fr.module
@@ -491,6 +504,113 @@ class Interp:
         if name in self.builtins:
             return self.builtins[name]
         raise Unsupported("unbound name %s in %s" % (name, fr.func))
+
+    def env_of(self, st, fid):
+        """variables of the activation `fid`: the live frame if it is still on the stack, what it held when it returned
+        if a closure was created in it (pop_frame), else None"""
+        for fr in reversed(st.frames):
+            if fr.fid == fid:
+                return fr.vars
+        return st.ghost.get(("env", fid))
+
+    def pop_frame(self, st):
+        fr = st.frames.pop()
+        if fr.has_closures:
+            st.ghost[("env", fr.fid)] = fr.vars  # cells outlive the activation: closures created in it still read them
+        return fr
+
+    def closure_lookup(self, func, name, st):
+        """free variable `name` of a lambda / nested def -> (found, value).  A CPython closure refers to the VARIABLE of the
+        enclosing activation (a cell), not to the value it had when the function was defined: a later rebinding is seen
+        (`x = 1; f = lambda: x; x = 2; f()` is 2; every `lambda: i` made in a `for i` loop sees the last i).  The snapshot
+        taken at definition time (func.closure) is only used when the defining activation is unknown."""
+        fid = getattr(func, "def_fid", None)
+        env = self.env_of(st, fid) if fid is not None else None
+        if env is None:
+            if name in func.closure:
+                # the defining activation ran in a scratch state (class bodies, module constants: property factories ...) and
+                # its final variables are not available: the value at definition time is the variable's value for ever
+                # when the enclosing function binds the name exactly once, outside any loop (checked on its source)
+                parent = getattr(func, "def_func", None)
+                if fid is not None and parent is not None and not self._bound_once(parent.node, name):
+                    raise Unsupported("closure variable %s: the defining activation is not available and the name is rebound" % name)
+                return True, func.closure[name]
+            return False, None
+        comp = getattr(func, "comp_snapshot", None)
+        if comp and name in comp:
+            # a variable of a comprehension that was running when the function was created: it has its own cell in CPython;
+            # the model keeps it in the enclosing frame only while the comprehension runs - exact while it still holds
+            # the value it had at creation, refused otherwise
+            if name in env and env[name] is comp[name]:
+                return True, env[name]
+            raise Unsupported("closure over the comprehension variable %s is called after the variable changed" % name)
+        if name in env:
+            return True, env[name]
+        parent = getattr(func, "def_func", None)
+        if parent is not None and parent.closure is not None:
+            return self.closure_lookup(parent, name, st)
+        return False, None
+
+    def _bound_once(self, fnode, name):
+        """`name` has at most one binding in the function `fnode` (nested functions excluded), not inside a loop, no
+        del / global / nonlocal: a closure created after that binding sees this value whenever it is called"""
+        cache = fnode.__dict__.setdefault("_pyvc_bound_once", {})
+        if name in cache:
+            return cache[name]
+        count = 0
+        args = getattr(fnode, "args", None)
+        if args is not None:
+            allargs = list(args.posonlyargs) + list(args.args) + list(args.kwonlyargs) + [a for a in (args.vararg, args.kwarg) if a]
+            count += sum(1 for a in allargs if a.arg == name)
+        ok = True
+
+        def walk(n, in_loop):
+            nonlocal count, ok
+            for c in ast.iter_child_nodes(n):
+                if isinstance(c, (ast.FunctionDef, ast.AsyncFunctionDef, ast.ClassDef)):
+                    if c.name == name:
+                        count += 1
+                        ok = ok and not in_loop
+                    continue
+                if isinstance(c, ast.Lambda):
+                    continue
+                if isinstance(c, ast.Name) and c.id == name and isinstance(c.ctx, (ast.Store, ast.Del)):
+                    count += 1
+                    ok = ok and not in_loop and isinstance(c.ctx, ast.Store)
+                if isinstance(c, (ast.Global, ast.Nonlocal)) and name in c.names:
+                    ok = False
+                if isinstance(c, ast.ExceptHandler) and c.name == name:
+                    ok = False
+                if isinstance(c, (ast.Import, ast.ImportFrom)) and any((a.asname or a.name.split(".")[0]) == name for a in c.names):
+                    count += 1
+                walk(c, in_loop or isinstance(c, (ast.For, ast.While, ast.AsyncFor, ast.ListComp, ast.SetComp, ast.DictComp, ast.GeneratorExp)))
+
+        if isinstance(fnode, ast.Lambda):
+            r = count <= 1
+        else:
+            walk(fnode, False)
+            r = ok and count <= 1
+        cache[name] = r
+        return r
+
+    def _new_closure(self, fv, st):
+        """record where a lambda / nested def was created and evaluate its parameter defaults NOW (CPython evaluates them
+        when the def / lambda expression is executed, once)"""
+        fr = st.frame
+        fr.has_closures = True
+        fv.def_fid = fr.fid
+        fv.def_func = fr.func
+        names = st.ghost.get("__comp_names__")
+        if names:
+            fv.comp_snapshot = {n: fr.vars[n] for n in names if n in fr.vars}
+        a = fv.node.args
+        fv.defaults = {}
+        for d in list(a.defaults) + [d for d in a.kw_defaults if d is not None]:
+            outs = list(self.ev(d, st))
+            if len(outs) != 1 or isinstance(outs[0][1], Exc) or outs[0][0] is not st:
+                raise Unsupported("default argument expression of a nested function forks or raises")
+            fv.defaults[id(d)] = outs[0][1]
+        return fv
 
     # ------------------------------------------------------------------ classes
     def bases(self, cls):
@@ -960,7 +1080,7 @@ class Interp:
     def ev_Lambda(self, node, st):
         fv = FuncVal(node, st.frame.module, st.frame.cls, closure=self.closure_of(st), name="<lambda>")
         fv.lexcls = self.lexical_class_name(st)
-        yield st, fv
+        yield st, self._new_closure(fv, st)
 
     def closure_of(self, st):
         c = {}
@@ -1118,6 +1238,8 @@ class Interp:
                 return False
             if e.kind != f.kind:
                 return False
+            if e.__class__ is DictViewE:
+                continue  # derived data: recomputed from its dictionary at every access (St.get)
             if e.kind in ("list", "deque", "set", "numset"):
                 if len(e.items) != len(f.items) or any(x is not y for x, y in zip(e.items, f.items)):
                     return False
@@ -1165,7 +1287,7 @@ class Interp:
         # a < b <= c : evaluate operands left to right; all operands here are evaluated eagerly
         # (python would short-circuit; operands with side effects in chains are outside the subset).
         operands = [node.left] + list(node.comparators)
-        if len(operands) > 2 and not all(self._pure_expr(o) for o in operands[1:]):
+        if len(operands) > 2 and not all(self._pure_expr(o) for o in operands[2:]):  # the first two are always evaluated
             yield from self._compare_chain_lazy(st, node.ops, operands)
             return
         for st1, vs in self.ev_many(operands, st):
@@ -1192,6 +1314,23 @@ class Interp:
                     if k + 1 == len(ops):
                         yield st2, t
                         continue
+                    if is_z3(t) and self.feasible(st2, t) and self.feasible(st2, z3.Not(t)) and not any(
+                            isinstance(n, ast.NamedExpr) for o in operands[k + 2:] for n in ast.walk(o)):
+                        # no fork when the rest of the chain, evaluated under the assumption that it is reached, has one
+                        # outcome, does not raise and changes nothing: the chain is then the conjunction
+                        trial = st2.fork()
+                        trial.pc.append(t)
+                        n0 = len(trial.pc)
+                        try:
+                            outs = list(rec(trial, k + 1, right))
+                        except Unsupported:
+                            outs = []
+                        if (len(outs) == 1 and not isinstance(outs[0][1], Exc) and is_boollike(outs[0][1])
+                                and self._same_store(st2, outs[0][0])):
+                            for c in outs[0][0].pc[n0:]:
+                                st2.pc.append(z3.Implies(t, c))
+                            yield st2, z3.And(t, z3val(outs[0][1]))
+                            continue
                     for st3, b in self.branch(st2, t):
                         if b:
                             yield from rec(st3, k + 1, right)
@@ -1205,8 +1344,12 @@ class Interp:
                 yield from rec(st0, 0, first)
 
     def _pure_expr(self, node):
+        # operands of a comparison CHAIN that may be evaluated eagerly although CPython evaluates them only when every
+        # earlier comparison was true: only expressions that can neither raise nor have an effect (names, constants,
+        # + - * and unary operators on them).  Subscripts, attributes (properties), division ... take the lazy route.
         for n in ast.walk(node):
-            if isinstance(n, (ast.Call, ast.Yield, ast.Await, ast.NamedExpr)):
+            if not isinstance(n, (ast.Name, ast.Constant, ast.BinOp, ast.UnaryOp, ast.Add, ast.Sub, ast.Mult, ast.USub, ast.UAdd,
+                                  ast.Not, ast.Load, ast.Tuple)):
                 return False
         return True
 
@@ -1322,8 +1465,9 @@ class Interp:
                     from .loops import lazy_check, _same_items
 
                     lazy_check(st2, watch)
-                    if isinstance(it, Ref) and st2.get(it).kind == "list" and not _same_items(st2.get(it).items, items):
-                        raise Unsupported("a list is changed by the comprehension that iterates it")
+                    if isinstance(it, Ref) and st2.get(it).kind in ("list", "dict", "set") and not _same_items(list(st2.get(it).items), items):
+                        # (a dictionary / set that changes size: RuntimeError in CPython; a view whose values change: read live)
+                        raise Unsupported("a list / dictionary / set is changed by the comprehension that iterates it")
                 if k == len(items):
                     yield st2, None
                     return
@@ -1367,7 +1511,7 @@ class Interp:
 
     def ev_ListComp(self, node, st):
         acc = st.alloc(ListE([]))
-        saved = set(st.frame.vars)
+        saved = self._comp_saved(node, st)
 
         def leaf(s):
             for s1, v in list(self.ev(node.elt, s)):
@@ -1382,18 +1526,124 @@ class Interp:
             yield st1, (r if isinstance(r, Exc) else acc)
 
     def _drop_comp_vars(self, st, saved):
+        # a comprehension has its own scope: its loop variables neither survive it nor overwrite a variable of the same
+        # name in the enclosing function (saved: name -> value before the comprehension)
         for k in list(st.frame.vars):
             if k not in saved:
                 del st.frame.vars[k]
+        for k in getattr(saved, "targets", ()):
+            if k in saved:
+                st.frame.vars[k] = saved[k]
+        if getattr(saved, "outer_comp", None):
+            st.ghost["__comp_names__"] = saved.outer_comp
+        else:
+            st.ghost.pop("__comp_names__", None)
+
+    @staticmethod
+    def _comp_saved(node, st):
+        """variables of the current frame before a comprehension, with the names its `for` clauses bind (walrus targets
+        inside a comprehension DO bind in the enclosing scope and are not restored)"""
+        class _Saved(dict):
+            pass
+
+        saved = _Saved(st.frame.vars)
+        names = set()
+        for g in node.generators:
+            for n in ast.walk(g.target):
+                if isinstance(n, ast.Name):
+                    names.add(n.id)
+        saved.targets = names
+        saved.outer_comp = st.ghost.get("__comp_names__")
+        st.ghost["__comp_names__"] = frozenset(names) | (saved.outer_comp or frozenset())  # see closure_lookup
+        return saved
 
     def ev_GeneratorExp(self, node, st):
-        self.trust("genexp-eager", "generator expressions are evaluated eagerly (pure element expressions)")
+        """A generator expression is evaluated EAGERLY to the list of its items (an IterE).  That equals CPython's lazy
+        evaluation when (a) evaluating the element / condition expressions has no effect on anything that existed before
+        and does not raise - or the generator is the direct argument of a call that consumes it completely and at once
+        (list, tuple, sum, sorted, set, dict, min, max, str.join ...): checked here; (b) what it reads is unchanged when it
+        is consumed: the containers it iterates (lazy record) and, for a generator that is not consumed where it is
+        written, the variables it reads (IterE.free)."""
+        self.trust("genexp-eager", "generator expressions are evaluated eagerly (effect-free element expressions, or consumed completely at once)")
         from .loops import lazy_begin, lazy_end
 
+        full = getattr(node, "_pyvc_consumer", None) == "full"
+        immediate = getattr(node, "_pyvc_consumer", None) is not None
+        before = None if full else st.fork()
+        free = None
+        if not immediate:
+            own = {n.id for g in node.generators for n in ast.walk(g.target) if isinstance(n, ast.Name)}
+            fr = st.frame
+            fr.has_closures = True
+            free = (fr.fid, {n.id: fr.vars[n.id] for n in ast.walk(node)
+                             if isinstance(n, ast.Name) and isinstance(n.ctx, ast.Load) and n.id not in own and n.id in fr.vars})
         old = lazy_begin(st)
         for st1, r in self.ev_ListComp(node, st):
             lazy_end(st1, old, r)
+            if before is not None and (isinstance(r, Exc) or not self._unchanged(before, st1)):
+                raise Unsupported("a generator expression whose element expressions raise or change existing state is "
+                                  "evaluated eagerly only as the direct argument of list / tuple / sum / sorted / set / dict / min / max / join")
+            if not isinstance(r, Exc):
+                e = IterE(st1.get(r).items)
+                e.free = free
+                st1.store[r.id] = e
             yield st1, r
+
+    def _still_initial(self, frozen, v, st):
+        """the value v (in st) is what thaw(frozen) produces: same shape, same leaves"""
+        if isinstance(frozen, FrozenList):
+            e = st.get(v) if isinstance(v, Ref) else None
+            return e is not None and e.kind == "list" and len(e.items) == len(frozen.items) and all(
+                self._still_initial(f, x, st) for f, x in zip(frozen.items, e.items))
+        if isinstance(frozen, FrozenDict):
+            e = st.get(v) if isinstance(v, Ref) else None
+            if e is None or e.kind != "dict" or len(e.items) != len(frozen.items):
+                return False
+            for (fk, fv), (k2, v2) in zip(frozen.items.items(), e.items.items()):
+                if isinstance(fk, (FrozenObj, FrozenList, FrozenDict, FrozenNd)):
+                    if not self._still_initial(fk, k2, st):
+                        return False
+                elif fk is not k2 and fk != k2:
+                    return False
+                if not self._still_initial(fv, v2, st):
+                    return False
+            return True
+        if isinstance(frozen, FrozenNd):
+            e = st.get(v) if isinstance(v, Ref) else None
+            return e is not None and e.kind == "nd" and tuple(e.shape) == tuple(frozen.shape) and all(
+                self._still_initial(f, x, st) for f, x in zip(frozen.data, e.data))
+        if isinstance(frozen, frozenset):
+            e = st.get(v) if isinstance(v, Ref) else None
+            return e is not None and e.kind == "set" and len(e.items) == len(frozen) and all(x in frozen for x in e.items)
+        if isinstance(frozen, FrozenObj):
+            e = st.get(v) if isinstance(v, Ref) else None
+            return e is not None and e.kind == "obj" and e.attrs.keys() == frozen.attrs.keys() and all(
+                self._still_initial(frozen.attrs[k], e.attrs[k], st) for k in frozen.attrs)
+        if type(frozen) is tuple:
+            return type(v) is tuple and len(v) == len(frozen) and all(self._still_initial(f, x, st) for f, x in zip(frozen, v))
+        return frozen is v or (type(frozen) is type(v) and isinstance(v, (int, str, bool, Fraction, type(None))) and frozen == v) or (
+            not isinstance(v, Ref) and not isinstance(frozen, (FrozenList, FrozenDict, FrozenNd, FrozenObj)) and frozen is v)
+
+    def _unchanged(self, before, after):
+        """nothing that existed in `before` differs in `after`: store entries, abstract heap, module globals rebound on the
+        path, variables of every frame (new store entries and new variables of the top frame are allowed)"""
+        if not self._same_store(before, after):
+            return False
+        for k, v in after.ghost.items():
+            if isinstance(k, tuple) and k and k[0] == "modglobal" and before.ghost.get(k, self) is not v:
+                if len(k) == 2 and k not in before.ghost:
+                    # a module- / class-level container read for the first time on this path (thaw_global materialises it
+                    # lazily): no change as long as it still has its initial contents
+                    init = next((g for g in self._global_keep if id(g) == k[1]), None)
+                    if init is not None and self._still_initial(init, v, after):
+                        continue
+                return False
+        if len(before.frames) != len(after.frames):
+            return False
+        for fa, fb in zip(before.frames, after.frames):
+            if any(k in fb.vars and fb.vars[k] is not v for k, v in fa.vars.items()):
+                return False
+        return True
 
     def ev_SetComp(self, node, st):
         for st1, r in self.ev_ListComp(node, st):
@@ -1409,7 +1659,7 @@ class Interp:
 
     def ev_DictComp(self, node, st):
         acc = st.alloc(DictE())
-        saved = set(st.frame.vars)
+        saved = self._comp_saved(node, st)
 
         def leaf(s):
             for s1, kv in self.ev_many([node.key, node.value], s):
@@ -1468,6 +1718,10 @@ class Interp:
             plain = []
             for a in node.args:
                 plain.append(a.value if isinstance(a, ast.Starred) else a)
+            consumer = "full" if self._full_consumer(f) else "other"
+            for a in node.args:
+                if isinstance(a, (ast.GeneratorExp, ast.Call)):
+                    a._pyvc_consumer = consumer  # who consumes a lazy iterator created by this argument (ev_GeneratorExp, _lazy_ctx)
             for st2, avs in self.ev_many(plain, st1):
                 if isinstance(avs, Exc):
                     yield st2, avs
@@ -1492,7 +1746,60 @@ class Interp:
                             kwargs.update(e.items)
                         else:
                             kwargs[k.arg] = v
-                    yield from self.call(f, args, kwargs, st3, node)
+                    if not self._makes_iterator(f):
+                        yield from self.call(f, args, kwargs, st3, node)
+                        continue
+                    # zip / map / filter / enumerate / reversed / iter / itertools.* / a generator function: the items are
+                    # computed NOW although CPython computes them when the iterator is consumed.  Same rule as for generator
+                    # expressions (ev_GeneratorExp): computing them must be effect-free and must not raise, unless the
+                    # iterator is the direct argument of a call that consumes it completely at once.
+                    before = None if getattr(node, "_pyvc_consumer", None) == "full" else st3.fork()
+                    for st4, r in self.call(f, args, kwargs, st3, node):
+                        if before is not None and isinstance(r, Exc) and self._unchanged(before, st4):
+                            # computing the items raises and changes nothing: CPython creates the iterator without running
+                            # anything and raises when it is consumed (`items = self.iterChildren(..); return list(items)`):
+                            # an iterator with a pending exception, delivered by the complete consumer that takes it (call)
+                            e = IterE([])
+                            e.pending = (r.exc, before)
+                            yield st4, st4.alloc(e)
+                            continue
+                        if before is not None and (isinstance(r, Exc) or not self._unchanged(before, st4)):
+                            raise Unsupported("a lazy iterator (map / filter / zip / generator function ...) whose items raise or change "
+                                              "existing state when computed is evaluated eagerly only as the direct argument of "
+                                              "list / tuple / sum / sorted / set / dict / min / max / join"
+                                              + (" [raises %s]" % r.exc.name if isinstance(r, Exc) else ""))
+                        if isinstance(r, Ref) and type(st4.get(r)) is ListE:
+                            st4.store[r.id] = IterE(st4.get(r).items)  # an iterator object, not a list
+                        yield st4, r
+
+    _FULL_BUILTINS = frozenset(("sum", "sorted", "min", "max", "str.join", "list.extend", "set.update", "dict.update", "deque.extend"))
+    _FULL_CLASSES = frozenset(("list", "tuple", "set", "frozenset", "dict", "deque"))
+
+    _LAZY_BUILTINS = frozenset(("zip", "map", "filter", "enumerate", "reversed", "iter", "itertools.product", "itertools.chain",
+                                "itertools.chain.from_iterable", "itertools.islice", "itertools.zip_longest"))
+
+    def _makes_iterator(self, f):
+        if isinstance(f, Builtin):
+            return f.name in self._LAZY_BUILTINS
+        if isinstance(f, BoundMethod):
+            f = f.func
+        if isinstance(f, FuncVal) and isinstance(f.node, ast.FunctionDef):
+            q = f.qualname()
+            if q in self.stubs:
+                f = self.stubs[q]
+            isgen = f.node.__dict__.get("_pyvc_isgen")
+            if isgen is None:
+                isgen = f.node._pyvc_isgen = any(isinstance(n, (ast.Yield, ast.YieldFrom)) for n in self._walk_own(f.node))
+            return isgen
+        return False
+
+    def _full_consumer(self, f):
+        """the callee consumes an iterator argument completely, in order and before doing anything else"""
+        if isinstance(f, Builtin):
+            return f.name in self._FULL_BUILTINS
+        if isinstance(f, BuiltinClass):
+            return f.name in self._FULL_CLASSES
+        return False
 
     def _self_name(self, fr):
         if fr.func is not None and isinstance(fr.func.node, ast.FunctionDef) and fr.func.node.args.args:
@@ -1500,6 +1807,16 @@ class Interp:
         return "self"
 
     def call(self, f, args, kwargs, st, node=None):
+        if isinstance(f, (Builtin, BuiltinClass)):
+            for a in list(args) + list(kwargs.values()):
+                if isinstance(a, Ref) and a.id in st.store and st.store[a.id].__class__ is IterE and st.store[a.id].pending is not None:
+                    e = st.store[a.id]
+                    if self._full_consumer(f) and args and a is args[0] and not e.consumed and self._unchanged(e.pending[1], st):
+                        e.consumed = True
+                        yield st, Exc(e.pending[0])  # raised where CPython raises it: in the consumer
+                        return
+                    raise Unsupported("an iterator whose items raise when computed is used by something else than a complete consumer "
+                                      "(list, tuple, sum, sorted ...) in the state it was created in")
         if isinstance(f, BoundMethod):
             yield from self.call(f.func, [f.self_val] + list(args), kwargs, st, node)
         elif isinstance(f, FuncVal):
@@ -1649,17 +1966,26 @@ class Interp:
         return vars, None
 
     def eval_default(self, f, expr, st):
-        st0 = St()
-        st0.nid = st.nid
-        st0.frames.append(Frame(dict(f.closure or {}), None, f.module))
-        outs = list(self.ev(expr, st0))
-        if len(outs) != 1 or isinstance(outs[0][1], Exc):
+        """value of a parameter default.  CPython evaluates the default expression ONCE (when the `def` runs) and every
+        call that omits the argument receives that same object: a mutable default (`acc=[]`) is shared across calls and
+        keeps what earlier calls put into it.  Model: evaluated at the first use on a path, in the state of that path (so
+        nested containers live in its store), and remembered per path under (function, default expression)."""
+        if id(expr) in getattr(f, "defaults", ()):
+            return f.defaults[id(expr)]  # lambda / nested def: evaluated when the definition was executed (_new_closure)
+        key = ("default", id(f.node), id(expr))
+        if key in st.ghost:
+            return st.ghost[key]
+        st.frames.append(Frame(dict(f.closure or {}), None, f.module))
+        try:
+            outs = list(self.ev(expr, st))
+        finally:
+            st.frames.pop()
+        if len(outs) != 1 or isinstance(outs[0][1], Exc) or outs[0][0] is not st:
             raise Unsupported("default argument expression")
         v = outs[0][1]
-        if isinstance(v, Ref):
-            # mutable default: fresh copy per call is a deviation only if the code mutates it
-            e = outs[0][0].get(v)
-            return st.alloc(e.copy())
+        st.ghost[key] = v
+        self._default_keep = getattr(self, "_default_keep", [])
+        self._default_keep.append(f.node)  # keep the node alive: its id is part of the key
         return v
 
     def call_func(self, f, args, kwargs, st, node=None):
@@ -1677,7 +2003,7 @@ class Interp:
                 return
             st.frames.append(Frame(vars, f, f.module, f.cls))
             for st1, v in list(self.ev(f.node.body, st)):
-                st1.frames.pop()
+                self.pop_frame(st1)
                 yield st1, v
             return
         if len(st.frames) > MAX_DEPTH:
@@ -1699,7 +2025,7 @@ class Interp:
         fr.entry = dict(vars)
         st.frames.append(fr)
         for st1, ctrl in self.ex_block(f.node.body, st):
-            st1.frames.pop()
+            self.pop_frame(st1)
             if ctrl is None:
                 yield st1, None
             elif ctrl[0] == "return":
@@ -1759,6 +2085,8 @@ class Interp:
             return len(v.items) > 0
         if isinstance(v, Ref):
             e = st.get(v)
+            if e.__class__ is IterE:
+                return True  # an iterator object has neither __bool__ nor __len__: always true
             if e.kind in ("list", "deque", "set", "dict", "numset"):
                 return len(e.items) > 0
             if e.kind == "symlist":
@@ -1938,11 +2266,12 @@ class Interp:
         opname = type(node.op).__name__
         tgt = node.target
         if isinstance(tgt, ast.Name):
+            cur0 = self.lookup(tgt.id, st)  # CPython loads the target BEFORE it evaluates the right-hand side
             for st1, rhs in list(self.ev(node.value, st)):
                 if isinstance(rhs, Exc):
                     yield st1, ("raise", rhs.exc)
                     continue
-                cur = self.lookup(tgt.id, st1)
+                cur = cur0
                 for st2, r in self.models.binop(self, st1, opname, cur, rhs, inplace=True):
                     if isinstance(r, Exc):
                         yield st2, ("raise", r.exc)
@@ -1950,37 +2279,47 @@ class Interp:
                         self.bind_name(st2, tgt.id, r)
                         yield st2, None
         elif isinstance(tgt, ast.Attribute):
-            for st1, vs in self.ev_many([tgt.value, node.value], st):
-                if isinstance(vs, Exc):
-                    yield st1, ("raise", vs.exc)
+            # CPython's order for `o.a op= rhs`: evaluate o, LOAD o.a, evaluate rhs, operate, store - a right-hand side that
+            # itself changes o.a (self.n += self.bump()) does not change the value that was already loaded
+            for st1, obj in list(self.ev(tgt.value, st)):
+                if isinstance(obj, Exc):
+                    yield st1, ("raise", obj.exc)
                     continue
-                obj, rhs = vs
                 for st2, cur in list(self.getattr(obj, self.mangle(tgt.attr, st1), st1)):
                     if isinstance(cur, Exc):
                         yield st2, ("raise", cur.exc)
                         continue
-                    for st3, r in self.models.binop(self, st2, opname, cur, rhs, inplace=True):
-                        if isinstance(r, Exc):
-                            yield st3, ("raise", r.exc)
+                    for st2b, rhs in list(self.ev(node.value, st2)):
+                        if isinstance(rhs, Exc):
+                            yield st2b, ("raise", rhs.exc)
                             continue
-                        for st4, r2 in self.models.setattr(self, st3, obj, self.mangle(tgt.attr, st3), r):
-                            yield st4, (("raise", r2.exc) if isinstance(r2, Exc) else None)
+                        for st3, r in self.models.binop(self, st2b, opname, cur, rhs, inplace=True):
+                            if isinstance(r, Exc):
+                                yield st3, ("raise", r.exc)
+                                continue
+                            for st4, r2 in self.models.setattr(self, st3, obj, self.mangle(tgt.attr, st3), r):
+                                yield st4, (("raise", r2.exc) if isinstance(r2, Exc) else None)
         elif isinstance(tgt, ast.Subscript):
-            for st1, vs in self.ev_many([tgt.value, tgt.slice, node.value], st):
+            # same order for `o[i] op= rhs`: o, i, LOAD o[i], rhs, operate, store
+            for st1, vs in self.ev_many([tgt.value, tgt.slice], st):
                 if isinstance(vs, Exc):
                     yield st1, ("raise", vs.exc)
                     continue
-                obj, idx, rhs = vs
+                obj, idx = vs
                 for st2, cur in list(self.models.getitem(self, st1, obj, idx)):
                     if isinstance(cur, Exc):
                         yield st2, ("raise", cur.exc)
                         continue
-                    for st3, r in self.models.binop(self, st2, opname, cur, rhs, inplace=True):
-                        if isinstance(r, Exc):
-                            yield st3, ("raise", r.exc)
+                    for st2b, rhs in list(self.ev(node.value, st2)):
+                        if isinstance(rhs, Exc):
+                            yield st2b, ("raise", rhs.exc)
                             continue
-                        for st4, r2 in self.models.setitem(self, st3, obj, idx, r):
-                            yield st4, (("raise", r2.exc) if isinstance(r2, Exc) else None)
+                        for st3, r in self.models.binop(self, st2b, opname, cur, rhs, inplace=True):
+                            if isinstance(r, Exc):
+                                yield st3, ("raise", r.exc)
+                                continue
+                            for st4, r2 in self.models.setitem(self, st3, obj, idx, r):
+                                yield st4, (("raise", r2.exc) if isinstance(r2, Exc) else None)
         else:
             raise Unsupported("augmented assignment target")
 
@@ -2203,7 +2542,7 @@ class Interp:
     def ex_FunctionDef(self, node, st):
         fv = FuncVal(node, st.frame.module, None, closure=self.closure_of(st))
         fv.lexcls = self.lexical_class_name(st)
-        st.frame.vars[node.name] = fv
+        st.frame.vars[node.name] = self._new_closure(fv, st)
         yield st, None
 
     def ex_For(self, node, st):
